@@ -117,6 +117,46 @@ def run_cfg(arg):
     else:
       shapes.add(tuple(router.getDestinations(key)) if 'aggregated' not in cfg['router'] else
                  tuple(sorted(router.getDestinations(key))))
+  # aggregation-aware variants: hash routing is applied to EACH aggregate name a metric feeds.  Two stub rules map
+  # the metric at ring position p to aggregate names at two other positions; the result must be the union of the
+  # (complete) hash routings of both names, each of which must itself be well formed.
+  if 'aggregated' in cfg['router']:
+    from carbon.aggregator.rules import RuleManager
+
+    class StubRule(object):
+      def __init__(self, f):
+        self.f = f
+
+      def get_aggregate_metric(self, metric):
+        return self.f(metric)
+    pos_of = {}
+    RuleManager.rules = [StubRule(lambda m: table[(pos_of[m] + 21845) % 65536] if m in pos_of else None),
+                         StubRule(lambda m: table[(pos_of[m] * 3 + 7) % 65536] if m in pos_of else None)]
+    plain = dict(cfg, router='consistent-hashing')
+    try:
+      for p in pts if not full else positions_for(cfg, router, False):
+        key = table[p]
+        pos_of.clear()
+        pos_of[key] = p
+        names = [r.get_aggregate_metric(key) for r in RuleManager.rules]
+        n += 1
+        try:
+          got = list(router.getDestinations(key))
+          parts = [list(router.hash_router.getDestinations(a)) for a in names]
+        except Exception as e:   # noqa
+          bad.append(('exception', 'getDestinations raised %r' % (e,), {'cfg': cfg, 'key': key, 'position': p, 'aggregates': names}))
+          break
+        v = None
+        for a, part in zip(names, parts):
+          v = v or check_one(plain, router.hash_router, a)
+        want = set(parts[0]) | set(parts[1])
+        if v is None and (set(got) != want or len(got) != len(set(got))):
+          v = ('aggregate-union', 'metric feeding the aggregates %r routed to %r; the hash destinations of the aggregate names '
+               'are %r and %r' % (names, got, parts[0], parts[1]))
+        if v is not None and len(bad) < 3:
+          bad.append((v[0] + ':two-aggregates', v[1], {'cfg': cfg, 'key': key, 'position': p, 'aggregates': names}))
+    finally:
+      RuleManager.rules = []
   # membership changes at run time (DYNAMIC_ROUTER, stopClient): remove each destination in turn, check the
   # router as a configuration of the remaining ones, re-add it and check again
   if len(cfg['dests']) >= 2 and not cfg.get('static'):
@@ -243,6 +283,23 @@ def replay(path):
     else:
       cfg = dict(cfg, dests=[d for d in cfg['dests'] if d != tuple(rep['removed'])])
   print('config:', cfg)
+  if rep.get('aggregates'):
+    from carbon.aggregator.rules import RuleManager
+
+    class StubRule(object):
+      def __init__(self, name):
+        self.name = name
+
+      def get_aggregate_metric(self, metric):
+        return self.name if metric == rep['key'] else None
+    RuleManager.rules = [StubRule(a) for a in rep['aggregates']]
+    got = list(router.getDestinations(rep['key']))
+    parts = [list(router.hash_router.getDestinations(a)) for a in rep['aggregates']]
+    print('key %r feeding aggregates %r ->' % (rep['key'], rep['aggregates']), got)
+    print('hash routing of the aggregate names:', parts)
+    ok = set(got) == set(parts[0]) | set(parts[1]) and len(got) == len(set(got))
+    print('oracle:', 'holds' if ok else 'VIOLATED')
+    return 0 if ok else 1
   print('key %r ->' % rep['key'], list(router.getDestinations(rep['key'])))
   r = check_one(cfg, router, rep['key'])
   print('oracle:', r or 'holds')
